@@ -52,7 +52,7 @@ func genC11(rt *rapid.T) pdCase {
 	for i := 0; i < n; i++ {
 		l := fmt.Sprintf("s%d", i)
 		st := pdStep{
-			Kind: rapid.SampledFrom([]string{"poll", "poll", "poll", "post", "post", "postBlocked", "postBlocked", "release", "release", "abortPoll", "abortPost", "postWhileHandlerBusy", "appSend", "appSend", "appClose", "wait", "heartbeat", "postClose", "postWrongHeartbeat"}).Draw(rt, l+".kind"),
+			Kind: rapid.SampledFrom([]string{"poll", "poll", "poll", "post", "post", "postBlocked", "postBlocked", "release", "release", "abortPoll", "abortPost", "postWhileHandlerBusy", "appSend", "appSend", "appClose", "wait", "heartbeat", "postClose", "postWrongHeartbeat", "closeWhileBusySlowConn"}).Draw(rt, l+".kind"),
 			Sess: rapid.IntRange(0, c.NSess-1).Draw(rt, l+".sess"),
 			N:    rapid.IntRange(1, 5).Draw(rt, l+".n"),
 		}
@@ -319,6 +319,69 @@ func runC11(c pdCase) (fail string, stats map[string]bool) {
 				}
 			}
 			pc.Poll = nil
+		case "closeWhileBusySlowConn":
+			// the data request's payload is still being handled by a slow listener when the application closes the
+			// session; the connection of that request is slow: the status line of whatever answers it first takes
+			// its time, and meanwhile the listener finishes and the handler wants to acknowledge. One response.
+			if s.closed || s.post != nil {
+				break
+			}
+			pk := mkMsgs(s, st.N)
+			ch := make(chan struct{})
+			parkMsg, parkedInMsg = ch, false
+			hold := make(chan struct{})
+			body, ct := pc.EncodePost(pk, false)
+			e1 := pc.StartPostRaw(body, ct, func(r *ReqSpec) { r.HoldHeader = hold })
+			s.inPost = e1
+			Settle()
+			s.accepted = append(s.accepted, e1)
+			if !parkedInMsg {
+				parkMsg = nil
+				close(ch)
+				close(hold)
+				Settle()
+				s.inPost = nil
+				s.wantMsgs = append(s.wantMsgs, pk...)
+				break
+			}
+			closed := make(chan struct{})
+			go func() { s.sr.Sock.Close(st.Block%2 == 0); close(closed) }()
+			Settle()
+			e1.mu.Lock()
+			held := e1.HeldHeader
+			e1.mu.Unlock()
+			// the listener finishes: the handler goes on with the rest of the payload and its acknowledgement
+			close(ch)
+			if held {
+				stats["two-responders-for-one-data-request"] = true
+				// (the handler may be waiting for a lock the held writer owns: no quiescence to wait for)
+				linger()
+			} else {
+				Settle()
+			}
+			close(hold)
+			<-closed
+			Settle()
+			s.inPost = nil
+			extra := s.sr.Msgs[min(len(s.wantMsgs), len(s.sr.Msgs)):]
+			if !isPrefix(extra, pk) {
+				return fmt.Sprintf("%s: delivered %s of the payload %s", what, pktsString(extra), pktsString(pk)), stats
+			}
+			s.wantMsgs = append(s.wantMsgs, extra...)
+			closeCause(s, "forced close", "transport error")
+			if s.poll != nil && !s.poll.Snap().Responded {
+				// Close(false) with nothing buffered waits for the next poll / the pending one is answered by the close
+			}
+			for k := 0; k < 3 && len(s.sr.Closes) == 0; k++ {
+				if s.poll != nil && !s.poll.Snap().Responded {
+					break
+				}
+				pc.Pump()
+				e := pc.StartPoll()
+				Settle()
+				s.accepted = append(s.accepted, e)
+				s.poll = e
+			}
 		case "postWhileHandlerBusy":
 			// the first request's body has been read completely, its message listener is still running
 			if s.closed || s.post != nil {
@@ -521,7 +584,7 @@ func runC11(c pdCase) (fail string, stats map[string]bool) {
 
 func TestC11PollingDiscipline(t *testing.T) {
 	col := NewCollector("TestC11PollingDiscipline",
-		"rapid: 1-3 polling/JSONP sessions (revision 3/4) and 2-14 steps: poll (also while one is pending), data request with 1-5 packets (also while another one's body is stalled at a drawn byte offset by the instrumented request body), release of the stalled body, abort of the pending poll / of the stalled upload, a data request that carries a close packet or a wrong-direction heartbeat (with or without a poll pending), application Send, Close(false), waits (1ms..30s); oracle per request record: at most one status line and no write after the handler returned, handler returns iff answered; an overlapping request is answered 400 and the session closes with 'transport error'; other sessions are unaffected; a pending poll is answered no later than the session's close event; a data request is acknowledged 200 'ok' only after every message of its payload was delivered (checked from inside the message event) and never while its body is still being uploaded; delivered messages == payloads processed. non-trivial: a history with an overlap or an abort").Use(t)
+		"rapid: 1-3 polling/JSONP sessions (revision 3/4) and 2-14 steps: poll (also while one is pending), data request with 1-5 packets (also while another one's body is stalled at a drawn byte offset by the instrumented request body), release of the stalled body, abort of the pending poll / of the stalled upload, a data request that carries a close packet or a wrong-direction heartbeat (with or without a poll pending), a session closed by the application while a data request's payload is still being handled and that request's connection is slow (its first status line is held back while the handler wants to acknowledge), application Send, Close(false), waits (1ms..30s); oracle per request record: at most one status line and no write after the handler returned, handler returns iff answered; an overlapping request is answered 400 and the session closes with 'transport error'; other sessions are unaffected; a pending poll is answered no later than the session's close event; a data request is acknowledged 200 'ok' only after every message of its payload was delivered (checked from inside the message event) and never while its body is still being uploaded; delivered messages == payloads processed. non-trivial: a history with an overlap or an abort").Use(t)
 	rapid.Check(t, func(rt *rapid.T) {
 		c := genC11(rt)
 		journal("C11 %v", c)
@@ -543,7 +606,7 @@ func TestC11PollingDiscipline(t *testing.T) {
 			rt.Fatalf("%v: %s", c, clipStr(res.Leak, 1500))
 		}
 	})
-	col.RequireClasses(t, "overlapping-poll", "overlapping-data-request", "aborted-poll", "aborted-data-request", "stalled-body-released", "poll-released-by-close", "poll-answered-by-send", "multi-packet-ack", "undisturbed-session-ok", "request-after-close", "data-request-while-handler-busy", "client-close-packet-with-poll-pending", "wrong-heartbeat-with-poll-pending")
+	col.RequireClasses(t, "overlapping-poll", "overlapping-data-request", "aborted-poll", "aborted-data-request", "stalled-body-released", "poll-released-by-close", "poll-answered-by-send", "multi-packet-ack", "undisturbed-session-ok", "request-after-close", "data-request-while-handler-busy", "client-close-packet-with-poll-pending", "wrong-heartbeat-with-poll-pending", "two-responders-for-one-data-request")
 }
 
 const sigTruncatedUpload = "aborted-upload-truncated-payload-processed"
